@@ -54,6 +54,8 @@ ASSUMPTIONS = [
   'an Open() that raises synchronously leaves its channel Closed; it is scripted only for channels created after '
   'the balancer\'s own Open() (a raising initial Open() kills _OpenImpl: the balancer never opens - not a C03-C05 matter) '
   'and only in C05 histories (an expansion inside a dispatch then raises into the dispatching caller)',
+  'an Open() still pending when its channel is closed fails: inside Close() (option close_fails_open, as the mux '
+  'transport does) or when the script says so (op opendead); it never succeeds afterwards',
   'a flushing Close() completes the requests in flight on that channel (kind closed) after the channel is Closed and '
   'before Close() returns',
   'the aperture model (HeapBalancer with Aperture = TRUE) and the aperture family configure load-based resizing '
@@ -89,7 +91,9 @@ RULE = {
          'seeded random -, expansions whose new channel\'s Open() raises synchronously followed by further '
          'expansions and the endpoint\'s leave, contractions (jitter timer / decayed load peak) with a dead node in '
          'the aperture followed by duplicate joins and the other members leaving (both enumerated + random), '
-         'plus TLC-simulated behaviours of LbBase; non-trivial = at least 2 notifications of which one is '
+         'a member whose channel Open() is still pending leaves and the open then fails (late, or inside '
+         'Close()) in every order relative to 1-2 other leaves, heap 2-5 members and aperture min_size 1-2 '
+         '(enumerated + random), plus TLC-simulated behaviours of LbBase; non-trivial = at least 2 notifications of which one is '
          'a duplicate join, an unknown leave, a re-join or lands before loading completes; distinct by canonical '
          'event list',
 }
@@ -294,6 +298,7 @@ def _drive(script):
     ep_closes = {}
     cflush = set(int(x) for x in script.get('cflush', []))   # channels whose Close() fails their pending requests synchronously
     cflush_all = bool(script.get('cflush_all'))
+    close_fails_open = bool(script.get('close_fails_open'))
     ofail_ep = {}         # eid -> set of k: the k-th Open() over all channels of that endpoint raises synchronously
     ep_opens = {}
     cfail_all = bool(script.get('cfail_all'))
@@ -408,6 +413,7 @@ def _drive(script):
       self.open_ar = None
       self.opens = 0
       self.closes = 0
+      self.dead_ar = None   # open result still pending when the channel was closed
       self.tick = H.tick
 
     @property
@@ -445,6 +451,14 @@ def _drive(script):
     def Close(self):
       self.closes += 1
       self._st = ChannelState.Closed
+      if self.open_ar is not None and not self.open_ar.ready():
+        # an Open() is still pending: it fails - at once (as the mux transport's _Shutdown does, option
+        # close_fails_open) or when the script says so (op opendead: the connect is refused late)
+        if H.close_fails_open:
+          emit({'e': 'OpenDone', 'n': self.cid, 'ok': 0})
+          self.open_ar.set_exception(Exception('closed while opening'))
+        else:
+          self.dead_ar = self.open_ar
       self.open_ar = None
       H.ep_closes[self.eid] = H.ep_closes.get(self.eid, 0) + 1
       flush = []
@@ -832,6 +846,14 @@ def _drive(script):
         c = pend[op[1] % len(pend)]
         c.finish_open(c.open_ar, bool(op[2]))
         quanta(op[3] if len(op) > 3 else -1)
+    elif k == 'opendead':
+      # the pending Open() of a channel that was closed meanwhile (its member left) fails now
+      pend = [c for c in H.chans if c.dead_ar is not None and not c.dead_ar.ready()]
+      if pend:
+        c = pend[op[1] % len(pend)]
+        emit({'e': 'OpenDone', 'n': c.cid, 'ok': 0})
+        c.dead_ar.set_exception(Exception('connect failed'))
+        quanta(op[2] if len(op) > 2 else -1)
     elif k == 'disp':
       if len(op) > 3:
         srand.forced.extend(op[3])      # outcomes of random.choice inside this dispatch
@@ -1538,6 +1560,89 @@ def _gen_contract_dead(rng):
   return sc
 
 
+def _family_late_openfail():
+  """A member joins (or is pulled into the aperture) and its channel's Open() is still pending; the same
+  member leaves (the node is removed, the channel closed); the pending Open() then FAILS (the open
+  result completes with an error, the balancer's continuation runs for a node that is gone); 1-2 other
+  members leave - in every order relative to the open failure; dispatches.  Enumerated: heap with 2-5
+  members, aperture with min_size 1 (the pending channel is a replacement pulled in by a dispatch) and 2
+  (a join below min_size; a replacement after a leave) x every order of {open fails, leave a[, leave b]}
+  x the failure scripted late / raised by Close() itself (as the mux transport does)."""
+  import itertools
+  out = []
+  shapes = []
+  for n in (2, 3, 4, 5):
+    shapes.append(('heap', 0, list(range(1, n + 1)), [['join', n + 1, -1]], n + 1, [1, 2]))
+  shapes.append(('aperture', 2, [1], [['join', 2, -1]], 2, [1]))
+  shapes.append(('aperture', 2, [1, 2, 3, 4], [['leave', 1, -1]], 3, [2, 4]))          # replacement of 1 = least idle
+  shapes.append(('aperture', 1, [1, 2, 3], [['chan_n', 1, 4], ['disp', 0, 0, [0]], ['settle']], 2, [1, 3]))
+  shapes.append(('aperture', 2, [1, 2, 3, 4], [['chan_n', 1, 4], ['disp', 0, 0, [0]], ['settle']], 3, [2, 4]))
+  for kind, minsz, s0, enter, m, others in shapes:
+    for k in (1, 2):
+      oth = others[:k]
+      if len(oth) < k:
+        continue
+      for cfo in (0, 1):
+        steps = [('L', e) for e in oth] + ([] if cfo else [('F', 0)])
+        for order in itertools.permutations(steps):
+          ops = [['open'], ['settle'], ['pol', 'manual']] + enter + [['leave', m, -1]]
+          for what, e in order:
+            ops.append(['opendead', 0, -1] if what == 'F' else ['leave', e, -1])
+          ops += [['pol', 'sync'], ['settle']] + [['disp', 0, 0]] * (len(s0) + 2) + [['settle'], ['probe']]
+          sc = {'kind': kind, 's0': s0, 'rseed': 1, 'pol': 'sync', 'shuffle_id': True, 'load': {'mode': 'nonblock'},
+                'close_fails_open': cfo, 'ops': ops}
+          if kind == 'aperture':
+            ap = dict(AP_FIXED)
+            ap.update(min_size=minsz, max_size=2 ** 31)
+            sc['ap'] = ap
+          out.append(sc)
+  return out
+
+
+def _gen_late_openfail(rng, kind):
+  """Random join / leave / traffic histories with script-completed Open() results: opens succeed or fail
+  at random points, also after the channel's member has left (late failure) or inside Close()."""
+  n = rng.choice([1, 2, 3, 4, 5])
+  names = list(range(1, n + 3))
+  sc = {'kind': kind, 's0': list(range(1, n + 1)), 'rseed': rng.randint(0, 10 ** 6), 'pol': 'sync',
+        'load': {'mode': 'nonblock'}, 'close_fails_open': 1 if rng.random() < 0.4 else 0}
+  if kind == 'aperture':
+    ap = dict(AP_FIXED) if rng.random() < 0.7 else {'min_load': 0.5, 'max_load': 2.0, 'jitter_min': 0, 'jitter_max': 0}
+    ap.update(min_size=rng.choice([1, 2, 2, 3]), max_size=2 ** 31)
+    sc['ap'] = ap
+  ops = [['open'], ['settle'], ['pol', 'manual']]
+  w = dict(disp=18, comp=8, chan=8, leave=26, join=22, opendone=6, opendead=9, settle=3)
+  keys = sorted(w)
+  tot = sum(w.values())
+  for _ in range(rng.randint(8, 26)):
+    x = rng.randrange(tot)
+    for kk in keys:
+      if x < w[kk]:
+        break
+      x -= w[kk]
+    if kk == 'disp':
+      ops.append(['disp', 1 if rng.random() < 0.5 else 0, 0])
+    elif kk == 'comp':
+      ops.append(['comp', rng.randrange(64), rng.choice(['reply', 'error']), 0])
+    elif kk == 'chan':
+      ops.append(['chan', rng.randrange(64), rng.choice([4, 4, 2, 3])])
+    elif kk == 'leave':
+      ops.append(['leave', rng.choice(names), -1])
+    elif kk == 'join':
+      ops.append(['join', rng.choice(names), -1])
+    elif kk == 'opendone':
+      ops.append(['opendone', rng.randrange(8), 1 if rng.random() < 0.6 else 0, -1])
+    elif kk == 'opendead':
+      ops.append(['opendead', rng.randrange(8), -1])
+    elif kk == 'settle':
+      ops.append(['settle'])
+  ops += [['opendead', 0, -1], ['settle']] + [['disp', 0, 0]] * rng.randint(1, 4)
+  if rng.random() < 0.6:
+    ops.append(['probe'])
+  sc['ops'] = ops
+  return sc
+
+
 def _family_c05(kinds=('heap', 'aperture')):
   """Every history of <= 2 notifications over 2 names while GetServers blocks, x <= 1 after the
   release, x initial set x early/late snapshot: the init-gate space, enumerated."""
@@ -1692,7 +1797,7 @@ def cases(prop, tier, seed):
     out.extend(_family_parked())
     for i in range(150 if quick else 1500):
       out.append(_gen_parked(rng, 'heap' if i % 2 else 'aperture'))
-    n = 1020 if quick else 8000
+    n = 980 if quick else 8000
     for i in range(n):
       sc = _gen_traffic(rng, 'heap' if i % 3 else 'aperture', prop)
       if i % 5 == 4:
@@ -1704,6 +1809,10 @@ def cases(prop, tier, seed):
     out.extend(fam if not quick else fam[int(seed) % 3::3])
     for i in range(40 if quick else 800):
       out.append(_gen_flush_close(rng, 'heap' if i % 3 else 'aperture'))
+    fam = _family_late_openfail()
+    out.extend(fam if not quick else fam[int(seed) % 3::3])
+    for i in range(20 if quick else 600):
+      out.append(_gen_late_openfail(rng, 'heap' if i % 2 else 'aperture'))
   else:
     n = 550 if quick else 4000
     for i in range(n):
@@ -1714,7 +1823,7 @@ def cases(prop, tier, seed):
     out.extend(fam[int(seed) % 3::3] if quick else fam)
     fam = _family_closefail()
     out.extend(fam[int(seed) % 2::2] if quick else fam)
-    for i in range(150 if quick else 2500):
+    for i in range(120 if quick else 2500):
       out.append(_gen_closefail(rng, 'heap' if i % 2 else 'aperture'))
     fam = _family_open_raises()
     out.extend(fam if not quick else fam[int(seed) % 2::2])
@@ -1724,6 +1833,10 @@ def cases(prop, tier, seed):
     out.extend(fam if not quick else fam[int(seed) % 2::2])
     for i in range(80 if quick else 1500):
       out.append(_gen_contract_dead(rng))
+    fam = _family_late_openfail()
+    out.extend(fam if not quick else fam[int(seed) % 2::2])
+    for i in range(40 if quick else 1000):
+      out.append(_gen_late_openfail(rng, 'heap' if i % 2 else 'aperture'))
   return out
 
 
